@@ -72,6 +72,16 @@ def rings_beyond_99(rng, tail=150):
     return many_closed_rings(100) + alive_selfies(rng, tail, p_ring=0.35, p_branch=0.08, p_dot=0.0, p_nop=0.0)
 
 
+def wrapped_rings(k):
+    """A macrocycle that runs through k three-membered rings: its ring bond is opened at the first atom and
+    closed at the last one, so its ring number stays in use while more than 99 other rings open and close."""
+    toks = ["[N]"] + ["[C]", "[C]", "[C]", "[Ring1]", "[Ring1]"] * k + ["[C]"]
+    natoms = 2 + 3 * k
+    syms = index_syms(natoms - 2)
+    syms = [IDX[0]] * (3 - len(syms)) + syms
+    return toks + ["[Ring3]"] + syms
+
+
 def many_open_rings(k, gap=None):
     """k ring bonds that are all open at the same time in the written SMILES."""
     gap = gap or k
